@@ -372,6 +372,7 @@ def run_programs(ctx, n, model_ok=True):
     progs = [gen_program(ctx.rng) for _ in range(n)]
     # fixed witnesses first (corpus of the design document)
     fixed = [
+        {"src": "0.6::a; 0.7::b.\nquery(a).\nquery(b).", "facts": [0.6, 0.7], "groups": [[0.6, 0.7]], "declared": [[0.6, 0.7]], "partial": False, "kinds": {"ad-sum-over"}},
         {"src": "0.7::a; 0.7::b.\nquery(a).\nquery(b).", "facts": [0.7, 0.7], "groups": [[0.7, 0.7]], "declared": [[0.7, 0.7]], "partial": False, "kinds": {"ad-sum-over"}},
         {"src": "0.7::a; 0.7::b.\nquery(a).", "facts": [0.7], "groups": [[0.7]], "declared": [[0.7, 0.7]], "partial": True, "kinds": {"ad-sum-over", "ad-partially-queried"}},
         {"src": "1.5::a.\nquery(a).", "facts": [1.5], "groups": [], "declared": [], "partial": False, "kinds": {"fact-outside"}},
@@ -518,7 +519,7 @@ def run(ctx):
         ctx.cov["findings_witness_partial_group"] = "checks on the generated model" if rc == 0 else "no longer checks"
     # the implementation-side runs and the property-level judge do not depend on the Coq side:
     # with a broken model they still search for a concrete failing input
-    ctx.log("update_weights tie")
-    tie_update_weights(ctx, ctx.n(300, 5000), model_ok=ok)
     ctx.log("programs")
     run_programs(ctx, ctx.n(250, 5000), model_ok=ok)
+    ctx.log("update_weights tie")
+    tie_update_weights(ctx, ctx.n(300, 5000), model_ok=ok)
